@@ -68,6 +68,12 @@ func (v valueSpec) render() string {
 	case "bigset":
 		sizes := []int{1000, 1001, 2001}
 		return fmt.Sprintf("(\"before\", set(range(%d)), %d)", sizes[((n%3)+3)%3], n)
+	case "tupslice":
+		// a tuple and a prefix slice of it (the slice shares the tuple's storage)
+		return fmt.Sprintf("(lambda t: (t, t[:%d]))((10, 20, 30, 40, 50, 60, 70))", 1+((n%6)+6)%6)
+	case "idx1000":
+		// only the elements at indices 1000 and 2001 depend on the version
+		return fmt.Sprintf("[0] * 1000 + [%d] + [0] * 1000 + [%d] + [0] * 7", n, n+1)
 	case "strlen":
 		sizes := []int{254, 255, 256, 257}
 		return fmt.Sprintf("(\"y\" * %d) + \"%d\"", sizes[((n%4)+4)%4], n)
@@ -139,7 +145,41 @@ type targetSpec struct {
 	DocV      int       `json:"doc_v,omitempty"`
 	CommentV  int       `json:"comment_v,omitempty"`
 	SelfParam bool      `json:"self_param,omitempty"`
-	ReadsDeps bool      `json:"reads_deps,omitempty"` // the body reads its dependencies' generated files (their paths are literals in its code)
+	DepSpell  []int     `json:"dep_spelling,omitempty"` // per dependency: 0 canonical, 1 "//pkg/:name", 2 "//pkg//:name", 3 listed twice (canonical + variant 1)
+	ReadsDeps bool      `json:"reads_deps,omitempty"`   // the body reads its dependencies' generated files (their paths are literals in its code)
+}
+
+// spelledDeps renders the dependency labels as written in the BUILD file: the same label can
+// be spelled in several ways and listed more than once.
+func (t *targetSpec) spelledDeps() []string {
+	var out []string
+	for i, d := range t.Deps {
+		sp := 0
+		if i < len(t.DepSpell) {
+			sp = t.DepSpell[i]
+		}
+		c := strings.LastIndexByte(d, ':')
+		pkg, name := d[:c], d[c+1:]
+		alt := d
+		if pkg != "//" {
+			alt = pkg + "/:" + name
+		}
+		switch sp {
+		case 1:
+			out = append(out, alt)
+		case 2:
+			if pkg != "//" {
+				out = append(out, pkg+"//:"+name)
+			} else {
+				out = append(out, d)
+			}
+		case 3:
+			out = append(out, d, alt)
+		default:
+			out = append(out, d)
+		}
+	}
+	return out
 }
 
 func (t *targetSpec) label() string {
@@ -345,7 +385,7 @@ func (p *projSpec) renderTarget(t *targetSpec) string {
 	var sb strings.Builder
 	var kw []string
 	if len(t.Deps) > 0 {
-		kw = append(kw, "deps="+quoteList(t.Deps))
+		kw = append(kw, "deps="+quoteList(t.spelledDeps()))
 	}
 	if len(t.Sources) > 0 {
 		kw = append(kw, "sources="+quoteList(t.Sources))
